@@ -104,15 +104,15 @@ const schemaSnippet = `<div itemscope itemtype="http://schema.org/Article"><h2 i
 const ogSnippet = `<meta property="og:title" content="OG Title"><meta property="og:type" content="article"><meta property="og:url" content="http://example.com/og"><meta property="og:image" content="http://example.com/og.png"><meta property="article:author" content="http://example.com/a1"><meta property="article:author" content="http://example.com/a2"><meta name="title" content="IE title"><meta name="copyright" content="(c) IE">`
 
 func genC11Doc(t *rapid.T) c11Doc {
-	switch rapid.IntRange(0, 9).Draw(t, "dk") {
-	case 0, 1, 2, 3, 4:
+	switch rapid.IntRange(0, 11).Draw(t, "dk") {
+	case 0, 1, 2, 3:
 		pg := genPager(t)
 		o := OptSpec{URL: pg.PageURL, Algo: uint(rapid.IntRange(0, 1).Draw(t, "algo"))}
 		if rapid.IntRange(0, 5).Draw(t, "log") == 0 {
 			o.LogFlags = uint(rapid.IntRange(0, 31).Draw(t, "lf"))
 		}
 		return c11Doc{HTML: pg.HTML, Opts: o, Kind: "pager"}
-	case 5:
+	case 4, 5:
 		g := newG(t, carrierProfile())
 		page := g.page()
 		if rapid.Bool().Draw(t, "markup") {
@@ -120,7 +120,7 @@ func genC11Doc(t *rapid.T) c11Doc {
 			page = strings.Replace(page, "</body>", schemaSnippet+"</body>", 1)
 		}
 		return c11Doc{HTML: page, Opts: genOpts(t, 60), Kind: "article+markup"}
-	case 6:
+	case 6, 7, 8:
 		// a page from the markup grammar of C14 (all OpenGraph prefix declarations, schema.org items, IE tags)
 		mc := genC14(t)
 		return c11Doc{HTML: mc.HTML, Opts: genOpts(t, 60), Kind: "markup-grammar"}
